@@ -192,7 +192,7 @@ pub fn mirror_scenario(prop: &str, seed: u64, index: u64) -> Option<Scenario> {
     // re-derive affordability after the space change, then express budgets as time limits
     let geo = geo_for(&scn.space).ok()?;
     let ext = scn.param("ext").unwrap_or(1.0);
-    scn.planner.goal_bias = *rng.pick(&[0.05, 0.2, 0.5]);
+    scn.planner.goal_bias = *rng.pick(&[0.05, 0.2, 0.5, 0.05, 0.2, 0.5, 0.0, 1.0]);
     scn.planner.max_distance = ext * rng.range(0.1, 0.4);
     scn.planner.search_radius = scn.planner.max_distance * rng.range(0.8, 2.0);
     scn.planner.connection_radius = ext * rng.range(0.2, 0.5);
@@ -421,10 +421,20 @@ pub fn mirror_scenario(prop: &str, seed: u64, index: u64) -> Option<Scenario> {
         if kth > 0 && index / 5 % 3 == 2 && index % 2 == 0 {
             scn.params.insert("fault_at_goal_call".into(), 1.0);
         }
+        // PRM, one scenario in seven: the validity callback fails on EVERY state (the roadmap
+        // stays empty after dozens of consecutive failures) while a bystander planner, set up
+        // earlier with a healthy callback on the same problem, waits to be queried afterwards
+        if prm && index % 7 == 3 {
+            scn.params.insert("fault_everywhere".into(), 1.0);
+            scn.params.insert("bystander".into(), 1.0);
+            scn.params.insert("fault_kth".into(), 0.0);
+            scn.params.insert("fault_target".into(), 0.0);
+            scn.params.remove("fault_at_goal_call");
+        }
         // region faults of the goal predicate, a third of them: the failing method is installed
         // on the live goal object only AFTER the first query (the user rebinds `is_satisfied`),
         // and the planner is queried again
-        if kth == 0 && index / 5 % 3 == 2 && index % 2 == 1 {
+        if kth == 0 && index / 5 % 3 == 2 && index % 2 == 1 && scn.param("bystander").is_none() {
             let solves = scn.calls.iter().filter(|c| matches!(c, CallSpec::Solve { .. })).count();
             if solves < 2 {
                 if rng.chance(0.5) {
